@@ -435,6 +435,25 @@ impl<T: Tab + 'static> State<T> {
                     None => ok(vec![], Some(json!("none"))),
                 }
             }
+            "iter_count" => {
+                // a COMPLETE run of the public iterator: how many items, and the last one
+                let n = arg_usize(op, "n");
+                let d = arg_usize(op, "d");
+                let mut count: u64 = 0;
+                let mut last: Option<T> = None;
+                for t in T::iter(n) {
+                    count += 1;
+                    last = Some(t);
+                    if count > (1u64 << 33) {
+                        break;
+                    }
+                }
+                let has = last.is_some();
+                if let Some(t) = last {
+                    self.slots[d] = Some(t);
+                }
+                ok(if has { vec![d] } else { vec![] }, Some(json!({"count": bits_of(count)})))
+            }
             "vnext" => {
                 let a = arg_usize(op, "a");
                 let mut av = self.get(a).clone();
